@@ -45,6 +45,12 @@ def tsum(t):
     return sum(t)
 
 
+def failon2(x):
+    if x == 2:
+        raise ZeroDivisionError("injected: task fails on the cluster for element 2")
+    return x + 1
+
+
 def addk(x, y=0, k=0):
     return x + y + k
 
@@ -77,6 +83,9 @@ PROGS = {
     "starmap.kw": lambda s: s.map(pair).starmap(add3, c=100),
     "acc.kw": lambda s: s.accumulate(addk, start=0, k=1),
     "fanout.union": lambda s: s.map(inc).union(s.map(times10)),
+    # the mapped function fails for one element: the emitter gets the error, later elements flow on
+    "map.fail": lambda s: s.map(failon2),
+    "map.fail.map": lambda s: s.map(failon2).map(times10),
     # one emit delivers three elements to partition(2): the third arrives while the flush of
     # the first two is still being delivered through gather
     "fan3.union.partition": lambda s: s.map(inc).union(s.map(times10), s.map(neg)).partition(2),
@@ -139,6 +148,15 @@ def precompute_local(prog, two, n):
 
 
 def _local_run(prog, emits, two):
+    import logging
+    logging.disable(logging.CRITICAL)
+    try:
+        return _local_run2(prog, emits, two)
+    finally:
+        logging.disable(logging.NOTSET)
+
+
+def _local_run2(prog, emits, two):
     """the same program from local nodes, fed the same emits in the same order, synchronous.
     returns the event log [('in', v) | ('rc0', eid) | ('cb', eid)] and final counts"""
     from streamz import Stream, RefCounter
@@ -165,7 +183,10 @@ def _local_run(prog, emits, two):
         rc = RC(cb=lambda: None, loop=_CbLoop(log))
         rc.eid = x
         rcs[x] = rc
-        srcs[name].emit(x, metadata=[{"ref": rc}])
+        try:
+            srcs[name].emit(x, metadata=[{"ref": rc}])
+        except ZeroDivisionError:
+            log.append(("raised", x))
     snk.destroy()
     return log, dict((x, rc.count) for x, rc in rcs.items())
 
@@ -242,9 +263,14 @@ class Dask(Scenario):
     def _check(self, final):
         p = self.params
         site = self.site()
+        emits = [(e[1], e[3]) for e in self.log if e[0] == "emit"]
+        llog0, _ = local_run(p["prog"], emits, p["two"])
+        want_raised = [e[1] for e in llog0 if e[0] == "raised"]
         er = [e for e in self.log if e[0] == "emit-raised"]
-        if er:
+        if [e[3] for e in er if e[3] not in want_raised]:
             return Violation("emit-raised", site, er[0][4], er)
+        if final and sorted(e[3] for e in er) != sorted(want_raised):
+            return Violation("not-raised", site, "", dict(raised=[e[3] for e in er], expected=want_raised))
         for c in self.client.calls:
             if c[0] == "scatter" and c[1]:
                 return Violation("scatter-hash", site, "", "scatter called with hash=True: equal values would share one future/key")
@@ -296,6 +322,13 @@ class Dask(Scenario):
             if pend:
                 return Violation("emit-pending", site, "", dict(info, pending=pend))
             dcounts = dict((x, rc.count) for x, rc in self.rcs.items())
+            for x in want_raised:
+                # an element whose processing raised: never completed in either world; the exact count of
+                # partial retains is not part of the statement
+                if dcounts.get(x, 1) <= 0:
+                    return Violation("counters", site, "failed-element-completed", dict(info, element=x))
+                dcounts.pop(x, None)
+            lcounts = dict((x, c) for x, c in lcounts.items() if x not in want_raised)
             if dcounts != lcounts:
                 return Violation("counters", site, "final-counts", dict(info, dask=dcounts, local=lcounts))
             for x in lcnt:
